@@ -261,8 +261,10 @@ def _run(prop_id, tier, seed, args, scratch, t0):
         'wall_s': round(wall, 2),
         'violations': len(violations),
     }
-    os.makedirs(os.path.join(VERIF_DIR, 'evidence'), exist_ok=True)
-    with open(os.path.join(VERIF_DIR, 'evidence', f'{prop_id}.json'), 'w') as f:
+    # VERIF_EVIDENCE_DIR: sensitivity runs against mutated scratch copies write their evidence elsewhere
+    evdir = os.environ.get('VERIF_EVIDENCE_DIR') or os.path.join(VERIF_DIR, 'evidence')
+    os.makedirs(evdir, exist_ok=True)
+    with open(os.path.join(evdir, f'{prop_id}.json'), 'w') as f:
         json.dump(ev, f, indent=1, default=str)
 
     for ln in lines:
